@@ -293,27 +293,13 @@ func RunUnits(p *Prog) *Units {
 					if ks == nil {
 						continue
 					}
-					if mc, ok := a.(*ssa.MakeClosure); ok {
-						cf := mc.Fn.(*ssa.Function)
-						if m := boundTarget(cf); m != nil {
-							cf = originOf(m)
-							for j, k := range ks {
-								if par := cbParam(cf, j); par != nil {
-									u.accSet(par, k)
-								}
-							}
-						} else {
-							for j, k := range ks {
-								if j < len(cf.Params) {
-									u.accSet(cf.Params[j], k)
-								}
-							}
-						}
-					}
-					if f, ok := a.(*ssa.Function); ok {
+					// a literal, a named function, a method value — also when it reaches the call
+					// through a local or a captured variable (writeChunk := s.writeChunk)
+					if f := asFunc(norm(a)); f != nil && f.Blocks != nil {
+						cf := originOf(f)
 						for j, k := range ks {
-							if j < len(f.Params) {
-								u.accSet(f.Params[j], k)
+							if par := cbParam(cf, j); par != nil {
+								u.accSet(par, k)
 							}
 						}
 					}
